@@ -31,6 +31,8 @@ fn fp_name(f: RFp) -> &'static str {
         RFp::Bad => "one-bit-wrong",
         RFp::Absent => "absent",
         RFp::MisplacedWrongLen => "misplaced",
+        RFp::BadThenDecoy => "wrong-then-decoy",
+        RFp::BadThenSecondFp => "wrong-then-second-fingerprint",
     }
 }
 
@@ -116,7 +118,7 @@ impl Monitor for Mon {
         }
         for i in w.awaiting() {
             for r in base_replies(&w.cfg) {
-                for f in [RFp::Valid, RFp::Bad, RFp::Absent, RFp::MisplacedWrongLen] {
+                for f in [RFp::Valid, RFp::Bad, RFp::Absent, RFp::MisplacedWrongLen, RFp::BadThenDecoy, RFp::BadThenSecondFp] {
                     v.push(Event::Deliver { to: Target::Req(i), reply: r.with_fp(f) });
                 }
             }
@@ -127,7 +129,7 @@ impl Monitor for Mon {
                 Mech::ShortTerm(_) => RMac::Mi,
                 _ => RMac::None,
             };
-            for f in [RFp::Valid, RFp::Bad, RFp::Absent, RFp::MisplacedWrongLen] {
+            for f in [RFp::Valid, RFp::Bad, RFp::Absent, RFp::MisplacedWrongLen, RFp::BadThenDecoy, RFp::BadThenSecondFp] {
                 v.push(Event::Deliver { to: Target::Unknown, reply: Reply::plain(RClass::Indication).with_mac(mac).with_fp(f) });
             }
         }
@@ -169,6 +171,6 @@ pub fn run(ctx: &RunCtx, rep: &mut Report) {
     rep.extra.insert(
         "client".into(),
         json!({"engine": "E3 breadth-first exploration of fingerprint-enforcing clients (none / short-term / long-term x both transports)", "depth": depth, "states": states, "transitions": transitions, "per_config": per,
-               "alphabet": "Send, Indicate, Timer, AdvanceTo, Deliver(each awaiting request x accepted reply kinds of the mechanism x FINGERPRINT {valid, one bit wrong, absent, misplaced before the last attribute with the CRC over the unadjusted length}), Deliver(indication x the 4 FINGERPRINT kinds)"}),
+               "alphabet": "Send, Indicate, Timer, AdvanceTo, Deliver(each awaiting request x accepted reply kinds of the mechanism x FINGERPRINT {valid, one bit wrong, absent, misplaced before the last attribute with the CRC over the unadjusted length, wrong and followed by a decoy attribute whose value reads like a matching FINGERPRINT TLV, wrong and followed by a second FINGERPRINT that is right for its own position}), Deliver(indication x the 6 FINGERPRINT kinds)"}),
     );
 }
